@@ -121,6 +121,17 @@ def run(ctx):
             for runner in ("sync", "async"):
                 one(ctx, t["spec"], t["inputs"], runner, f"{t['template']}-{runner}", loop_ref=t["ref"])
             ctx.case({"t": t["template"]}, True)
+    for N in range(2, 8):
+        for wf in (True, False):
+            if ctx.shard[0] != sysn % ctx.shard[1]:
+                sysn += 1
+                continue
+            sysn += 1
+            t = loops.lagging_waiter_loop(N, wf)
+            for runner in ("sync", "async", "async"):
+                one(ctx, t["spec"], t["inputs"], runner, f"{t['template']}-{runner}", deterministic=False)
+            ctx.obs["lagging_waiter_runs"] += 3
+            ctx.case({"t": t["template"], "N": N}, True)
     for i in range(n):
         rng = ctx.rng
         r = rng.random()
